@@ -587,6 +587,23 @@ def run(ctx):
     stats.update(st)
     V.merge(vr)
     bounds.append({"family": "magnitudes: a ** b for every b in -70..70 over 9 integer/float bases, alone and inside products", "token_strings": len(mitems), "in_domain_checked": st.get("checked", 0)})
+    # (b3) operands a hair off whole numbers, halves and zero (relative distance 1e-5 .. 1e-15), on either side of every
+    # binary operator, with and without a sign: a result 'tidied' to the special value nearby is off by far more than the tolerance
+    near = ["2.000001", "1.999999", "0.999995", "1.0000001", "3.00000001", "0.5000001", "0.49999999", "1e-9", "1e-12", "2.0000000001", "0.99999999999", "1.000000000000001", "6.99999"]
+    others = [["2"], ["3"], ["10"], ["0.5"], ["1.5"], ["n"], ["x"], ["(", "-", "2", ")"], ["pi"]]
+    nitems = []
+    for e_ in near:
+        for o_ in others:
+            for op_ in ("+", "-", "*", "/", "**"):
+                nitems.append((o_ + [op_, e_], False))
+                nitems.append(([e_, op_] + o_, False))
+                nitems.append((o_ + [op_, "-", e_], False))
+        for f in ("sqrt", "exp", "log", "arccos", "cos"):
+            nitems.append(([f, "(", e_, ")"], False))
+    st, vr = _prep(nitems)
+    stats.update(st)
+    V.merge(vr)
+    bounds.append({"family": "operands a hair off whole numbers / halves / zero (13 literals) on either side of each binary operator x 9 other operands; under 5 functions", "token_strings": len(nitems), "in_domain_checked": st.get("checked", 0)})
     # (c) functions at domain points
     fitems = [([f, "(", p, ")"] if not p.startswith("-") else [f, "(", "-", p[1:], ")"], False) for f in FUNCS for p in FUNC_POINTS[f]]
     st, vr = _prep(fitems)
